@@ -35,7 +35,7 @@ def gen_case(seed, promote=False):
                 i = r.choice(cands); connected.add(i); return f"conn {i}"
             c = r.choice(sorted(connected))
         if x < 0.40: return f"set {c} {xs(r.choice(KEYS))} {js(val())}"
-        if x < 0.55: return f"cset {c} {xs(r.choice(KEYS))} {js(val())} {r.choice([0, 0, 1, 1, 2])}"
+        if x < 0.55: return f"cset {c} {xs(r.choice(KEYS + [f'w/{c}', f'lw{c}/x', f'w/{c}']))} {js(val())} {r.choice([0, 0, 0, 1, 1, 2])}"      # also last-will keys: the will overrides CAS protection
         if x < 0.63: return f"del {c} {xs(r.choice(KEYS))}"
         if x < 0.70: return f"pdel {c} {xs(r.choice(PATS))}"
         if x < 0.80: return f"set {c} {xs(gg(c))} {js([r.choice(PATS) for _ in range(r.randint(0, 2))])}"
@@ -105,6 +105,10 @@ def run(v, tier, seed, prop=ID, promote=False, oracle=None):
     demo = [l for l in open(os.path.join(ROOT, "corpus", "F10a-F11-F21-demonstration-cases.txt")).read().split("\n") if l and not l.startswith("case ") and l != "end"]
     if not promote: demo = [l for l in demo if not l.startswith("promote")][:-1]
     cases.append(("F10a-F11-F21-demo", demo))
+    cases.append(("will-overrides-cas", ["leader", "conn 1", "conn 2", "join 1", f"cset 2 {xs('w/1')} {js('held')} 0", f"cset 2 {xs('lw1/x')} {js(1)} 0", f"cset 2 {xs('lw1/x')} {js(2)} 1",
+                                          f"set 1 {xs(lw(1))} {js([{'key': 'w/1', 'value': 'bye'}, {'key': 'lw1/x', 'value': 'gone'}, {'key': 'plain/k', 'value': 1}])}",
+                                          f"set 1 {xs(gg(1))} {js(['g/#'])}", f"set 2 {xs('g/x')} {js(1)}", "sync", "dump leader", "dump 1", "disc 1", "sync", "dump leader", "dump 1"]
+                  + (["promote 1", "dump leader"] if promote else [])))
     if not promote:
         cases.append(("F10b-cas-import", ["leader", "conn 1", "join 1", "import " + xs(json.dumps({"data": {"t": {"k": {"v": {"Cas": [1, 7]}}, "p": {"v": 2}}}})), "sync", "dump leader", "dump 1"]))
         cases.append(("F25-bad-import", ["leader", "conn 1", "join 1", "import " + xs(json.dumps({"t": {"k": {"v": 1}}})), "import " + xs("not json"), f"set 1 {xs('a')} {js(1)}", "sync", "dump leader", "dump 1"]))
